@@ -15,7 +15,7 @@ def scalar_values(tier='quick'):
     out = [('null', None), ('marker', MARKER), ('remove', REMOVE), ('bool', True), ('bool', False)]
     for f in (0.0, 1.0, -1.5, 100.0, 1e-7, 123456.789012, 1e21, 5e-324, 1.7976931348623157e308, float('inf'), float('-inf'), float('nan'), 3, -7, 0):
         out.append(('num', f))
-    for f, u in ((1.5, 'kW'), (-2.0, '%'), (0.0, '$'), (100.0, 'kW/h'), (3.25, '°C'), (1.0, '_x'), (7, 'm')):
+    for f, u in ((1.5, 'kW'), (-2.0, '%'), (0.0, '$'), (100.0, 'kW/h'), (3.25, '°C'), (1.0, 'kWh_ft'), (7, 'm')):
         out.append(('qty', Quantity(f, u)))
     out.append(('qty', Quantity(2.5, None)))
     for t in TEXTS:
